@@ -158,13 +158,13 @@ theorem sameBase_tail5 {o : Oracle} (ho : o.Sound) {B : Nat} (hB : 2 ≤ B) {ls 
 /-- cases 4–6 of `repr_cmp_same_base` with `Some((lp, rp))` -/
 theorem sameBase_tail {o : Oracle} (ho : o.Sound) {B : Nat} (hB : 2 ≤ B) {ls le rs re : Int}
     (hls : ls ≠ 0) (hrs : rs ≠ 0) (lp rp : Nat)
-    (h1 : lp ≠ 0 → ls.natAbs < B ^ (lp + 1)) (h2 : rp ≠ 0 → rs.natAbs < B ^ (rp + 1))
+    (h1 : lp ≠ 0 → ls.natAbs < B ^ (min lp isizeMax + 1)) (h2 : rp ≠ 0 → rs.natAbs < B ^ (min rp isizeMax + 1))
     (sign : Sign) (T exact : Ordering)
     (hgt : fltMag B rs re < fltMag B ls le → T = sign.app .gt)
     (hlt : fltMag B ls le < fltMag B rs re → T = sign.app .lt) (hex : exact = T) :
     (match (if lp ≠ 0 ∧ rp ≠ 0 then
-                (if le > re + rp then some (sign.app .gt)
-                 else if re > le + lp then some (sign.app .lt) else none)
+                (if le > re + ((min rp isizeMax : Nat) : Int) then some (sign.app .gt)
+                 else if re > le + ((min lp isizeMax : Nat) : Int) then some (sign.app .lt) else none)
               else none : Option Ordering) with
      | some r => r
      | none =>
@@ -174,13 +174,13 @@ theorem sameBase_tail {o : Oracle} (ho : o.Sound) {B : Nat} (hB : 2 ≤ B) {ls l
   have tail5 := sameBase_tail5 ho hB hls hrs sign T exact hgt hlt hex
   by_cases hnz : lp ≠ 0 ∧ rp ≠ 0
   · rw [if_pos hnz]
-    by_cases c1 : le > re + (rp : Int)
+    by_cases c1 : le > re + ((min rp isizeMax : Nat) : Int)
     · rw [if_pos c1]
-      exact (hgt (sameBase_shortcut hB hls (h2 hnz.2) (by push_cast; omega))).symm
+      exact (hgt (sameBase_shortcut hB hls (h2 hnz.2) (by omega))).symm
     · rw [if_neg c1]
-      by_cases c2 : re > le + (lp : Int)
+      by_cases c2 : re > le + ((min lp isizeMax : Nat) : Int)
       · rw [if_pos c2]
-        exact (hlt (sameBase_shortcut hB hrs (h1 hnz.1) (by push_cast; omega))).symm
+        exact (hlt (sameBase_shortcut hB hrs (h1 hnz.1) (by omega))).symm
       · rw [if_neg c2]
         exact tail5
   · rw [if_neg hnz]
@@ -221,8 +221,16 @@ theorem fIsZero_iff {s e : Int} (hinf : fIsInf s e = false) : fIsZero s e = true
   · intro h; exact ⟨h, by rcases hinf with h' | h'; exact absurd h h'; exact h'⟩
 
 /-- well-formed precision: a limited precision bounds the digit count of the significand (with the
-    one digit of slack the documentation of `Repr` allows) -/
-def PrecOK (B : Nat) (s : Int) (p : Nat) : Prop := p ≠ 0 → s.natAbs < B ^ (p + 1)
+    one digit of slack the documentation of `Repr` allows).  Since /repo ee43486 case 4 of
+    `repr_cmp_same_base` clamps the precision to `isize::MAX`, so the bound is stated for the clamped
+    precision: for `p ≤ isize::MAX` this is the old `|s| < B^(p+1)`; for a larger `p` it says the
+    significand has at most `2^63` digits — the Nat/usize gap: no `Repr` in memory has more (a word
+    buffer holds < 2^64 bits), the model's `Int` significand is unbounded. -/
+def PrecOK (B : Nat) (s : Int) (p : Nat) : Prop := p ≠ 0 → s.natAbs < B ^ (min p isizeMax + 1)
+
+theorem PrecOK_of_le {B : Nat} {s : Int} {p : Nat} (hp : p ≤ isizeMax) (h : p ≠ 0 → s.natAbs < B ^ (p + 1)) :
+    PrecOK B s p := by
+  intro h0; rw [Nat.min_eq_left hp]; exact h h0
 
 /-- `repr_cmp_same_base::<B, false>` with `Some(precisions)`: `Ord`/`PartialOrd` for FBig -/
 theorem reprCmpSameBase_spec {o : Oracle} (ho : o.Sound) {B : Nat} (hB : 2 ≤ B)
